@@ -21,12 +21,21 @@
 // variable of another package.  No type information is used: what cannot be recognised
 // syntactically as harmless is an access.
 //
-// Constructs whose events cannot be put into one source-order list, or that could hide a use of
-// shared state, are an error (non-zero exit = broken obligation): go statements, closures, loops,
-// switch/select, labels/goto, channel operations, a defer of anything but the producerLock Unlock,
-// any method of producerLock other than Lock/Unlock, producerLock used as a value, a
-// Lock/Unlock/RLock/RUnlock/TryLock/TryRLock call on anything else (another mutex), a missing
-// method, a producerLock field that is not a sync.Mutex.
+// Control flow must not hide events: the list is ONE sequence, so nothing that matters for the lock
+// discipline may be conditional or repeated.  Constructs whose events cannot be put into one
+// source-order list, or that could hide a use of shared state, are an error (non-zero exit = broken
+// obligation, the message names the construct and its line):
+//   - go statements, closures, loops, switch/select, labels/goto/break/continue, channel operations;
+//   - an `if` of any shape other than  `if [init;] cond { panic(<pure calls only>) }`  without else
+//     (init and cond are always executed and are walked like statements; the body may emit nothing
+//     but .pure events) — so no lock, unlock, lookup, access or return is ever conditional;
+//   - a `return` that is not the last statement of the function body;
+//   - more than one Lock() call;
+//   - a defer of anything but the producerLock Unlock;
+//   - any method of producerLock other than Lock/Unlock, producerLock used as a value, a
+//     Lock/Unlock/RLock/RUnlock/TryLock/TryRLock call on anything else (another mutex);
+//   - a missing method, a value receiver, a shadowed receiver, a producerLock field that is not a
+//     sync.Mutex.
 package main
 
 import (
@@ -67,6 +76,8 @@ type c13Walker struct {
 	recv string          // receiver identifier of the method being walked
 	pkgs map[string]bool // names under which packages are imported in the file
 	evs  []string
+	last ast.Stmt // the last statement of the function body: the only place a return may stand
+	lock ast.Node // the Lock() call already seen (a second one is an error)
 }
 
 func (w *c13Walker) errf(n ast.Node, format string, a ...any) error {
@@ -131,6 +142,10 @@ func (w *c13Walker) call(c *ast.CallExpr) error {
 		}
 		switch m {
 		case "Lock":
+			if w.lock != nil {
+				return w.errf(c, "second %s.%s.Lock() (the first is at line %d)", w.recv, c13Lock, w.fset.Position(w.lock.Pos()).Line)
+			}
+			w.lock = c
 			w.emit(".lock")
 		case "Unlock":
 			w.emit(".unlock")
@@ -424,6 +439,9 @@ func (w *c13Walker) stmt(s ast.Stmt) error {
 		}
 		return w.errf(x, "defer of something other than %s.%s.Unlock(): %s", w.recv, c13Lock, w.src(x.Call))
 	case *ast.ReturnStmt:
+		if s != w.last {
+			return w.errf(x, "return that is not the last statement of the function body: %s", w.src(x))
+		}
 		if err := w.exprs(x.Results); err != nil {
 			return err
 		}
@@ -432,18 +450,59 @@ func (w *c13Walker) stmt(s ast.Stmt) error {
 	case *ast.BlockStmt:
 		return w.stmts(x.List)
 	case *ast.IfStmt:
+		// Control flow must not hide events: the event list is ONE sequence, so nothing that matters
+		// for the lock discipline may be conditional.  The init statement and the condition are always
+		// executed and are walked like any statement.  The only body accepted is the shape
+		//     if <cond> { panic(<pure arguments>) }      (no else)
+		// i.e. a branch that leaves the function without touching anything.
 		if err := w.stmt(x.Init); err != nil {
 			return err
 		}
 		if err := w.expr(x.Cond); err != nil {
 			return err
 		}
-		if err := w.stmts(x.Body.List); err != nil {
+		if x.Else != nil {
+			return w.errf(x.Else, "if statement with an else branch: %s", w.src(x))
+		}
+		if len(x.Body.List) != 1 {
+			return w.errf(x, "if body is not a single panic(...) call (%d statements): %s", len(x.Body.List), w.src(x))
+		}
+		es, ok := x.Body.List[0].(*ast.ExprStmt)
+		var pc *ast.CallExpr
+		if ok {
+			pc, ok = es.X.(*ast.CallExpr)
+		}
+		if ok {
+			var id *ast.Ident
+			id, ok = pc.Fun.(*ast.Ident)
+			ok = ok && id.Name == "panic"
+		}
+		if !ok {
+			return w.errf(x.Body.List[0], "statement under an if that is not a panic(...) call: %s", w.src(x.Body.List[0]))
+		}
+		before := len(w.evs)
+		if err := w.call(pc); err != nil {
 			return err
 		}
-		return w.stmt(x.Else)
+		for _, ev := range w.evs[before:] {
+			if !strings.HasPrefix(ev, ".pure ") {
+				return w.errf(pc, "event %s under an if (only pure calls may be conditional): %s", ev, w.src(x))
+			}
+		}
+		return nil
+	case *ast.LabeledStmt:
+		return w.errf(s, "labelled statement: %s", w.src(s))
+	case *ast.BranchStmt:
+		return w.errf(s, "%s statement", x.Tok)
+	case *ast.GoStmt:
+		return w.errf(s, "go statement: %s", w.src(s))
+	case *ast.ForStmt, *ast.RangeStmt:
+		return w.errf(s, "loop: %s", w.src(s))
+	case *ast.SwitchStmt, *ast.TypeSwitchStmt, *ast.SelectStmt:
+		return w.errf(s, "switch/select statement: %s", w.src(s))
+	case *ast.SendStmt:
+		return w.errf(s, "channel send: %s", w.src(s))
 	}
-	// go, for, range, switch, type switch, select, send, labeled, branch (goto/break/continue), ...
 	return w.errf(s, "unrecognised statement %T: %s", s, w.src(s))
 }
 
@@ -606,6 +665,9 @@ def lockFacts : List Fn := [
 			return fmt.Errorf("%s: method %s has no named receiver", c13File, m)
 		}
 		w := &c13Walker{fset: fset, recv: fd.Recv.List[0].Names[0].Name, pkgs: pkgs}
+		if n := len(fd.Body.List); n > 0 {
+			w.last = fd.Body.List[n-1]
+		}
 		if w.pkgs[w.recv] {
 			return fmt.Errorf("%s: receiver of %s is named like an imported package", c13File, m)
 		}
